@@ -13,6 +13,11 @@ pub struct Delivery {
 /// end-of-body signal (Ok(0) for a non-empty buffer, or bytes() returning Ok) only when the frame is
 /// complete and everything was delivered; a read never returns more than asked.
 pub fn check(exp: &Decoded, reads: &Reads, events: &[Ev], tag: &str) -> Result<Delivery, (String, String)> {
+    if let Reads::BufOps(ops) = reads {
+        // the BufRead view: judged as the equivalent sequence of reads (as far as it can be followed)
+        let (ns, evs, _) = crate::bufview::convert(ops, events)?;
+        return check(exp, &Reads::Sizes(ns), &evs, tag);
+    }
     let complete = matches!(exp.end, End::Complete(_));
     let mut d = Delivery { got: vec![], saw_err: false, delivered_at_first_block: None };
     for (i, ev) in events.iter().enumerate() {
@@ -30,12 +35,14 @@ pub fn check(exp: &Decoded, reads: &Reads, events: &[Ev], tag: &str) -> Result<D
                 }
                 let eof_signal = match reads {
                     Reads::Drain(_) | Reads::Text(_) => true,
+                    Reads::BufOps(_) => unreachable!(),
                     Reads::Sizes(ns) => bs.is_empty() && ns[i] > 0,
                 };
                 if eof_signal && !(complete && d.got.len() == exp.payload.len()) {
                     return Err((format!("clean-eof-{}", tag), format!("end of body signalled (event #{}) after {} bytes although the frame is {:?} with {} payload bytes", i, d.got.len(), exp.end, exp.payload.len())));
                 }
             }
+            Ev::Peek(_) | Ev::Consumed => unreachable!(),
             Ev::Err(k) if k == "io0" => {}
             Ev::Err(_) => d.saw_err = true,
             Ev::Blocked => {
